@@ -11,6 +11,10 @@ import Mamba.Lemmas.CanonFCertJ
 import Mamba.Lemmas.CanonFCovFinal
 import Mamba.Lemmas.CanonFCovGens
 import Mamba.Lemmas.CanonFDfsMain
+import Mamba.Lemmas.CanonFOrbMain
+import Mamba.Lemmas.CanonFGenMain
+import Mamba.Lemmas.CanonFIsoSpec
+import Mamba.Lemmas.CanonFClassInv
 import Mamba.Spec.Iso
 /-!
 # C01 / C02, pattern F — theorems about the faithful model of `graph/canonical.go` (`Mamba/Model/CanonF.lean`)
@@ -772,5 +776,134 @@ theorem canonF_canon_invariant_simple (fuel fuel' : Nat) (g g' : G) (hg : g.WF) 
     | outOfFuel => rw [hf'] at h'; cases h'
   | panic => rw [hf] at h; cases h
   | outOfFuel => rw [hf] at h; cases h
+
+/-! ## (l) orbit completeness: the returned union–find is EXACTLY the orbit partition of the automorphism group
+
+Second coverage invariant (`Lemmas/CanonFOrbDef.lean`): `ACov lF certF R ν` — every leaf of the unpruned tree below `ν` whose
+certificate is that of the first leaf is position-wise `R`-related to the first leaf (`R` = same class of
+`firstLeafOrbits`) — carried through the same transitions as `Complete`, with the SAME ghost data as the DFS invariant
+(`EN`/`EA`/`ES`/`EM` = D-layer ⊕ A-layer): a leaf with another certificate is covered vacuously; at a leaf equal to the
+first / best leaf the orbit loop merges position-wise; the "worse" test also compares with `firstLeaf`, so a pruned
+subtree has no leaf with the first certificate; Heuristic-2 skips and back-jumps transfer coverage along automorphisms
+whose vertex–image pairs have all been merged. -/
+
+/-- `orbit_state_inv`: D-layer ⊕ A-layer is preserved by all transitions of the main loop -/
+theorem orbit_state_inv {n m : Nat} {nb : Nbrs} {rf : Nat} {r : IR.St} (hnb : NbOK nb n) (hsz : nb.size = n)
+    (hm : m = ((nb.toList.map List.length).sum) / 2) (hrf : 3 * n + 3 ≤ rf)
+    (hA : IR.InvA (irG n nb) r) (hD : IR.InvD (irG n nb) r)
+    (hlenm : ∀ o : List Nat, o.Perm (List.range n) → (certPos nb o n).length = m) :
+    MainJX n m nb (CertA n m nb) (CertN n m nb) (CertN n m nb) (CertM n m nb)
+      (EA n nb rf r) (EN n nb rf r) (ES n nb rf r) (EM n nb rf r) :=
+  orbMainJX hnb hsz hm hrf hA hD hlenm
+
+/-- the tree-level end of the argument: if the root is covered, every automorphism that preserves the colouring of the
+root relates every vertex to its image -/
+theorem orbit_cover_root {n : Nat} {nb : Nbrs} {rf : Nat} {r : IR.St} (hnb : NbOK nb n) {R : Nat → Nat → Prop}
+    {vsF oF : List Nat}
+    (hp : IR.IsPath (irG n nb) rf r vsF) (ht : IR.target (irG n nb) (IR.nodeAt (irG n nb) rf r vsF) = none)
+    (hc : (IR.nodeAt (irG n nb) rf r vsF).c = IR.tab n (fun v => oF.idxOf v)) (hoF : oF.Perm (List.range n))
+    (h : ACov n nb rf (IR.tab n (fun v => oF.idxOf v)) (certPos nb oF n) R r)
+    {γ : List Nat} (hγ : IsAutL nb n γ) (hcol : ∀ v, v < n → IR.col r.c (γ.getD v 0) = IR.col r.c v) :
+    ∀ u, u < n → R u (γ.getD u 0) :=
+  acov_root_aut hnb hp ht hc hoF h hγ hcol
+
+/-- `canonF_orbits_complete`: whenever `CanonicalIsomorphFull(g, classes)` returns (any fuel; general search and `m == 0`
+shortcut), every automorphism of `g` that maps each vertex class to itself maps every vertex into its own class of the
+returned union–find `firstLeafOrbits`: the orbit partition is not finer than the true orbits. -/
+theorem canonF_orbits_complete (fuel : Nat) (g : G) (hg : g.WF) (vc : Classes) (hvc : ClassesOK g.n vc) (hn : g.n ≠ 0)
+    (r : Res) (h : canonicalIsomorphFull fuel g vc = .ok r) :
+    ∃ op0 ds, newOrderedPartition g.n (((nbrsOf g).toList.map List.length).sum / 2) vc = .ok (some op0) ∧
+      r.orbits = some ds ∧ ∀ γ, IsAutL (nbrsOf g) g.n γ →
+        (∀ v, v < g.n → cellOf op0 (γ.getD v 0) = cellOf op0 v) →
+        ∀ u, u < g.n → Disjoint.rep ds.toArray u = Disjoint.rep ds.toArray (γ.getD u 0) :=
+  canonF_orbits_complete_all fuel g hg vc hvc hn r h
+
+/-- `canonF_orbits_exact` (first clause of C02 for the code's model): without vertex classes two vertices have the same
+representative in the returned union–find IF AND ONLY IF they lie in the same orbit of `Aut(g)`
+(`canonF_orbits_sound` ⊕ `canonF_orbits_complete`). -/
+theorem canonF_orbits_exact (fuel : Nat) (g : G) (hg : g.WF) (hn : g.n ≠ 0)
+    (r : Res) (h : canonicalIsomorphFull fuel g none = .ok r) :
+    ∃ ds, r.orbits = some ds ∧ ds.length = g.n ∧ ∀ a b, a < g.n → b < g.n →
+      (Disjoint.rep ds.toArray a = Disjoint.rep ds.toArray b ↔ SameOrbit g a b) :=
+  canonF_orbits_exact_full fuel g hg hn r h
+
+/-! ## (m) the returned generators generate the automorphism group
+
+`GenBy S n γ` (`Lemmas/CanonFGenDef.lean`): the permutation `γ` of `0..n-1` (as a list) is a product of elements of `S` and
+their inverses (`compL n α β` = `α ∘ β`, `invL n α`). The Go code records an automorphism found at a leaf equal to the
+first / best leaf only if it merged two classes of `firstLeafOrbits`; nevertheless the recorded ones generate every
+automorphism (stabiliser chain along the first-leaf path, third invariant layer `FN`/`FA`/`FS`/`FM` = D ⊕ A ⊕ G with the
+same ghost data): when the frame of level `L` on the first-leaf path is popped, every automorphism fixing the first `L`
+vertices of that path is generated (`AutGen`), by `stabiliser_chain_step` from level `L + 1`. -/
+
+/-- `generator_state_inv`: D-, A- and G-layer are preserved by all transitions of the main loop -/
+theorem generator_state_inv {n m : Nat} {nb : Nbrs} {rf : Nat} {r : IR.St} (hnb : NbOK nb n) (hsz : nb.size = n)
+    (hm : m = ((nb.toList.map List.length).sum) / 2) (hrf : 3 * n + 3 ≤ rf)
+    (hA : IR.InvA (irG n nb) r) (hD : IR.InvD (irG n nb) r)
+    (hlenm : ∀ o : List Nat, o.Perm (List.range n) → (certPos nb o n).length = m) :
+    MainJX n m nb (CertA n m nb) (CertN n m nb) (CertN n m nb) (CertM n m nb)
+      (FA n nb rf r) (FN n nb rf r) (FS n nb rf r) (FM n nb rf r) :=
+  genMainJX hnb hsz hm hrf hA hD hlenm
+
+/-- `stabiliser_chain_step`: at a covered node `nodeL vsF L` of the first-leaf path whose colouring is preserved by all
+recorded generators, generation of the stabiliser of level `L + 1` gives generation of the stabiliser of level `L` -/
+theorem stabiliser_chain_step {n m : Nat} {nb : Nbrs} {rf : Nat} {r : IR.St} (hnb : NbOK nb n)
+    (hA : IR.InvA (irG n nb) r) (hD : IR.InvD (irG n nb) r) {gh : Gh} {s : LS} {L : Nat}
+    (hF : LeafRec n nb rf r gh.vsF gh.oF s.firstLeaf.toList s.flPermInv s.flPath.toList) (hL : L < gh.vsF.length)
+    (hpos : 0 < s.count) (hg : GInv n m nb s) (hGA : GlobalA n gh s)
+    (he1 : ∀ k, k < s.ngens → ∀ γ, s.gens[k]? = some γ → ∀ u, u < n →
+      IR.col (nodeL n nb rf r gh.vsF L).c (γ.toList.getD u 0) = IR.col (nodeL n nb rf r gh.vsF L).c u)
+    (hcov : ACov n nb rf (lFof n gh) s.firstLeaf.toList (ORel s) (nodeL n nb rf r gh.vsF L))
+    (hnext : AutGen n nb r gh s (L + 1)) : AutGen n nb r gh s L :=
+  autgen_step hnb hA hD hF hL hpos hg hGA he1 hcov hnext
+
+/-- `canonF_generators_generate_classes`: whenever `CanonicalIsomorphFull(g, classes)` returns (any fuel; general search and
+`m == 0` shortcut), every automorphism of `g` that maps each vertex class to itself is a product of the RETURNED
+generators and their inverses. -/
+theorem canonF_generators_generate_classes (fuel : Nat) (g : G) (hg : g.WF) (vc : Classes) (hvc : ClassesOK g.n vc)
+    (hn : g.n ≠ 0) (r : Res) (h : canonicalIsomorphFull fuel g vc = .ok r) :
+    ∃ op0 gs, newOrderedPartition g.n (((nbrsOf g).toList.map List.length).sum / 2) vc = .ok (some op0) ∧
+      r.gens = some gs ∧ ∀ γ, IsAutL (nbrsOf g) g.n γ →
+        (∀ v, v < g.n → cellOf op0 (γ.getD v 0) = cellOf op0 v) → GenBy (fun x => x ∈ gs) g.n γ :=
+  canonF_generators_generate_all fuel g hg vc hvc hn r h
+
+/-- `canonF_generators_generate` (second clause of C02 for the code's model): without vertex classes every automorphism of
+`g` is a product of the returned generators and their inverses; with `canonF_generators_sound` the returned generators
+generate exactly `Aut(g)`. -/
+theorem canonF_generators_generate (fuel : Nat) (g : G) (hg : g.WF) (hn : g.n ≠ 0)
+    (r : Res) (h : canonicalIsomorphFull fuel g none = .ok r) :
+    ∃ gs, r.gens = some gs ∧ ∀ γ, IsAutG g γ → GenBy (fun x => x ∈ gs) g.n γ :=
+  canonF_generators_generate_full fuel g hg hn r h
+
+/-- conversely everything generated by automorphisms is an automorphism (closure of `IsAutL` under `compL`, `invL`) -/
+theorem generated_is_automorphism {S : List Nat → Prop} {nb : Nbrs} {n : Nat} (hS : ∀ γ, S γ → IsAutL nb n γ)
+    {γ : List Nat} (hγ : GenBy S n γ) : IsAutL nb n γ :=
+  hγ.isAut hS
+
+/-! ## (n) the canonical form in terms of the specification's isomorphism, and with vertex classes -/
+
+/-- `canonF_canon_complete_spec` (property C01 for the code's model): the graphs relabelled with the returned slices are EQUAL
+if and only if the input graphs are isomorphic (`GSearch.Iso`: a bijection of the vertices preserving adjacency). -/
+theorem canonF_canon_complete_spec (fuel fuel' : Nat) (g g' : G) (hg : g.WF) (hg' : g'.WF) (hn : g.n ≠ 0) (hn' : g'.n ≠ 0)
+    (r r' : Res) (h : canonicalIsomorphFull fuel g none = .ok r) (h' : canonicalIsomorphFull fuel' g' none = .ok r') :
+    ∃ p p', r.perm = some p ∧ r'.perm = some p' ∧ (g.induced p = g'.induced p' ↔ GSearch.Iso g g') :=
+  CanonF.canonF_canon_complete_spec fuel fuel' g g' hg hg' hn hn' r r' h h'
+
+/-- the two notions of isomorphism agree -/
+theorem iso_spec_iff {g g' : G} (hg : g.WF) (hg' : g'.WF) : IR.Iso (IR.ofSpec g) (IR.ofSpec g') ↔ GSearch.Iso g g' :=
+  ofSpec_iso_iff hg hg'
+
+/-- `canonF_canon_invariant_classes`: with vertex classes — if `g'` is a relabelled copy of `g` (`σ`) and the `k`-th class of
+`g'` contains the `σ`-images of the `k`-th class of `g`, the canonical certificates agree and the relabelled graphs are
+EQUAL. -/
+theorem canonF_canon_invariant_classes (fuel fuel' : Nat) (g g' : G) (hg : g.WF) (hg' : g'.WF) (hn : g.n ≠ 0)
+    {σ τ : Nat → Nat} (R : IR.Relabel (IR.ofSpec g) (IR.ofSpec g') σ τ) (cls cls' : List (List Nat))
+    (hvc : ClassesOK g.n (some cls)) (hvc' : ClassesOK g'.n (some cls')) (hlen : cls'.length = cls.length)
+    (hcls : ∀ (k : Nat) (c c' : List Nat), cls[k]? = some c → cls'[k]? = some c' → ∀ v, v ∈ c → σ v ∈ c')
+    (r r' : Res) (h : canonicalIsomorphFull fuel g (some cls) = .ok r)
+    (h' : canonicalIsomorphFull fuel' g' (some cls') = .ok r') :
+    ∃ p p', r.perm = some p ∧ r'.perm = some p' ∧ p.Perm (List.range g.n) ∧ p'.Perm (List.range g'.n) ∧
+      certPos (nbrsOf g') p' g'.n = certPos (nbrsOf g) p g.n ∧ g.induced p = g'.induced p' :=
+  canonF_canon_invariant_classes_full fuel fuel' g g' hg hg' hn R cls cls' hvc hvc' hlen hcls r r' h h'
 
 end C01F
